@@ -25,6 +25,16 @@ def lab_walkers(tc, grid, restricted):
     return Wa, Wb, Phi
 
 
+def multislater_blocks_ok(tc, Wa, Wb, mode):
+    """Wick expansion of a multi-Slater trial inverts the walker rows of BOTH reference strings: on a grid that is
+    conditioned for the alpha string only (restricted container with different alpha / beta strings) the beta block
+    can be singular.  Input pre-check; returns min |det| over the grid."""
+    ra = [i for i, x in enumerate(tc.ref[0]) if x]
+    rb = [i for i, x in enumerate(tc.ref[1]) if x]
+    Wbb = Wa[:, :, : tc.nb] if mode == "r" else Wb
+    return min(np.abs(np.linalg.det(Wa[:, ra, : tc.na])).min(), np.abs(np.linalg.det(Wbb[:, rb, :])).min())
+
+
 def batch_counts(P, thorough):
     """Batch counts dividing the grid size P (P = 2^E or 3^E)."""
     base = 2 if P % 2 == 0 else 3
